@@ -41,6 +41,7 @@ META = {
 }
 
 FAULTS = ['nan', 'pinf', 'ninf', 'warn', 'raise']
+CATS = list(sc.WARNING_CATEGORIES)
 
 
 def placement_cases(L):
@@ -59,7 +60,13 @@ def placement_cases(L):
                                 vals = [[1.0, 2.0, 3.0], [4.0, 5.0, 6.0]]
                                 if pre:
                                     vals[i % 2][1] = [float('nan'), float('inf')][i % 2]
-                                yield base_case(n, nE, check, t, o, {1: seq}, vals=vals)
+                                c = base_case(n, nE, check, t, o, {1: seq}, vals=vals)
+                                # implementation-side variations the model cannot see (deterministic in i)
+                                c['write'] = 'rebind' if i % 3 == 0 else 'inplace'
+                                for a in c['script'][1]:
+                                    if a['k'] == 'warn':
+                                        a['cat'] = CATS[(i // 2) % len(CATS)]
+                                yield c
 
 
 def hook_cases(rng, count):
@@ -76,7 +83,8 @@ def hook_cases(rng, count):
             if rng.random() < 0.6:
                 acts[pos] = {'k': rng.choice(['raise', 'warn', 'set']), 'v': [bits(9.0), bits(8.0)], 'm': rng.choice([0, 1, 2])}
             hooks[which] = acts
-        yield base_case(n, nE, [0, 1], t, o, {pos: seq}, before=hooks['before'], after=hooks['after'])
+        yield sc.vary_implementation_side(
+            base_case(n, nE, [0, 1], t, o, {pos: seq}, before=hooks['before'], after=hooks['after']), rng)
 
 
 def offset_cases(rng, count):
@@ -102,7 +110,23 @@ def offset_cases(rng, count):
             vals[rng.randrange(nE)][pos] = bad
         if where in ('at_source', 'both'):
             vals[rng.randrange(nE)][pos + off] = bad
-        yield base_case(n, nE, [0, 1], t, o, {pos: seq}, vals=vals)
+        yield sc.vary_implementation_side(base_case(n, nE, [0, 1], t, o, {pos: seq}, vals=vals), rng)
+
+
+def extreme_cases(rng, count):
+    """Finite values at the edge of the double range (their sum or difference overflows): non-finiteness is a
+    per-element notion, so these are ordinary values — no 'E'/'S', no up-front rejection, ordinary convergence rule."""
+    for _ in range(count):
+        n, nE = 3, rng.choice([2, 3])
+        t = rng.choice([0, 1, 2, -1])
+        pos = t + n if t < 0 else t
+        seq = [rng.choice(['huge', 'huge', 'far', 'close', 'same', 'nan', 'warn']) for _ in range(rng.randint(0, 4))]
+        M = rng.choice([1, 2, 3, 5])
+        o = mkopts(rng.choice([0, 0, 1, 2]), M, 0, rng.choice(['raise', 'ignore']), rng.choice(ERRORS), rng.choice([True, False]))
+        o['min_iter'] = min(o['min_iter'], M)
+        big = rng.choice([1.0e308, -1.0e308, 1.7e308])
+        vals = [[rng.choice([big, big, 0.0, 1.0]) for p in range(n)] for i in range(nE)]
+        yield sc.vary_implementation_side(base_case(n, nE, list(range(nE)), t, o, {pos: seq}, vals=vals), rng)
 
 
 def finite(v):
@@ -306,6 +330,8 @@ def _work(ctx, rep):
     check_cases(ctx, rep, list(hook_cases(rng, (2000 if ctx.tier == 'quick' else 200000) * ctx.scale // ctx.parts)), 'hooks')
     rng = ctx.sub_rng('offsets')
     check_cases(ctx, rep, list(offset_cases(rng, (2500 if ctx.tier == 'quick' else 200000) * ctx.scale // ctx.parts)), 'offset')
+    rng = ctx.sub_rng('extremes')
+    check_cases(ctx, rep, list(extreme_cases(rng, (1500 if ctx.tier == 'quick' else 150000) * ctx.scale // ctx.parts)), 'extremes')
     rng = ctx.sub_rng('natural')
     batch = []
     for _ in range((400 if ctx.tier == 'quick' else 40000) * ctx.scale // ctx.parts):
